@@ -54,7 +54,7 @@ type Contract struct {
 	Ghosts   []GhostDecl
 	Loops    map[int]*LoopSpec
 	Points   []PointSpec
-	Trusted  bool   // contract assumed, body not verified
+	Trusted  bool // contract assumed, body not verified
 	TrustWhy string
 	Props    []string // properties this function's obligations belong to (tags)
 	Inline   bool
@@ -63,16 +63,16 @@ type Contract struct {
 }
 
 type SpecFunc struct {
-	Name    string
-	Pkg     string // "" = global
-	Params  []specParam
-	Result  string // Go type text
-	Body    ast.Expr
-	BodyTxt string
-	SMT     string // raw smt body
+	Name     string
+	Pkg      string // "" = global
+	Params   []specParam
+	Result   string // Go type text
+	Body     ast.Expr
+	BodyTxt  string
+	SMT      string // raw smt body
 	Uninterp bool
-	IsPred  bool
-	Where   string
+	IsPred   bool
+	Where    string
 }
 
 type specParam struct{ Name, Type string }
